@@ -45,8 +45,11 @@ def write(prop_id: str, tier: str, seed: int, level: str, coverage: dict, assump
             # An evidence file that does not validate is worthless, but not a verdict about Griffe: keep the verdict,
             # write the file anyway and say so loudly.
             print(f"WARNING: evidence for {prop_id} does not validate: {exc.message}")
-    out = VERIF / "evidence"
-    out.mkdir(exist_ok=True)
+    import os
+
+    # runs against a scratch source tree (self-test, seeded changes) must not overwrite the real evidence
+    out = Path("/dev/shm/verif-alt/evidence") if os.environ.get("VERIF_SRC") else VERIF / "evidence"
+    out.mkdir(parents=True, exist_ok=True)
     path = out / f"{prop_id}.json"
     path.write_text(json.dumps(doc, indent=1) + "\n")
     return path
